@@ -54,12 +54,13 @@ SPEC = {
     "theorems_by_module": THEOREMS,
     "gate_modules": ["Dawgs.Model.C12", "Dawgs.Spec.C12", "Dawgs.Proofs.C12", "Dawgs.Props.C12"],
     # every case starts with `# case`, `mode <current|fixed>`, `load <map> <kinds>`
-    "suites": [{"name": "c12", "model_suite": "c12", "monitor_suite": "c12mon", "keep_prefix": 3}],
+    # thorough_seeds = 1: the exhaustive enumerations do not depend on the seed (no point in running them twice)
+    "suites": [{"name": "c12", "model_suite": "c12", "monitor_suite": "c12mon", "keep_prefix": 3, "thorough_seeds": 1}],
     "nontrivial": nontrivial,
     "finding_key": finding_key,
     "rule": "cases = exhaustive op sequences over fixed alphabets of Set/SetAll/Delete/GetOrDefault/Clone/Properties.Merge/Node.Merge/"
-            "AddKinds/DeleteKinds on two entities loaded from one state (quick: 24 ops^3 x 3 loaded states + 11^4 + 10^4; thorough: 24^4 x 3 + "
-            "11^5 x 2 + 10^5 x 2; count enumerated = exhaustive_expected in branch_hist), every op followed by a canonical dump of both "
+            "AddKinds/DeleteKinds on two entities loaded from one state (quick: 24 ops^3 x 3 loaded states + 11^4 + 10^4; thorough: 24^3 x 3 + "
+            "16^4 x 2 + 11^5 + 10^5; count enumerated = exhaustive_expected in branch_hist), every op followed by a canonical dump of both "
             "entities (raw Map/Modified/Deleted incl. nil-ness, ModifiedProperties()/DeletedProperties(), Kinds/AddedKinds/DeletedKinds), plus "
             "random histories (5-60 ops, 4 keys, 3 kinds, 10 JSON-like values incl. nil, merge weight 0..4/24) from splitmix64(VERIF_SEED); "
             "a case is non-trivial when it has an edit, a removal, and a merge/clone after the first of them; distinct = distinct op-line "
